@@ -226,5 +226,35 @@ func f(a, b *A, c, d *B, e, g *LongTypeName, i, j []string, k, l map[string]int)
 }
 `
 	out = append(out, s)
+	// a rename that is only found after the reload (the clashing calls take the result of another derive
+	// call), in files whose names sort AFTER derived.gen.go, and in a _test file
+	s = base("nested-late-files", "nested")
+	s.Files["pkg/main.go"] = `package pkg
+
+// names and ages are looked up in sorted order.
+func sorted(names map[string]A, ages map[int]B) ([]string, []int) {
+	// the two calls below have the same name and, once the keys functions exist, different argument types
+	return deriveSort(deriveKeysOfNames(names)), deriveSort(deriveKeysOfAges(ages)) // trailing
+}
+
+// keep: a declaration after the calls
+var keepMe = "main.go"
+`
+	s.Files["pkg/zz_more.go"] = `package pkg
+
+func more(a, b A) bool { return deriveEqual(a, b) } // no rename here
+`
+	s.Files["pkg/util_test.go"] = `package pkg
+
+import "testing"
+
+// TestSorted has a clashing nested call of its own.
+func TestSorted(t *testing.T) {
+	if len(deriveUnique(deriveKeysOfNames(map[string]A{}))) != 0 || len(deriveUnique(deriveKeysOfAges(map[int]B{}))) != 0 {
+		t.Fatal("not empty") // keep this comment
+	}
+}
+`
+	out = append(out, s)
 	return out
 }
